@@ -661,8 +661,8 @@ impl Session {
     }
 
 //@@ fn file=fe2o3-amqp/src/session/mod.rs impl=`impl endpoint::Session for Session` name=on_outgoing_transfer
-//@@ subst `.map(SessionOutgoingItem::MultipleFrames)` => `.map(|v0: Vec<SessionFrame>| -> (o: SessionOutgoingItem) ensures o == SessionOutgoingItem::MultipleFrames(v0) { SessionOutgoingItem::MultipleFrames(v0) })` rule=R18
-//@@ subst `.map(Some)` => `.map(|v0: SessionOutgoingItem| -> (o: Option<SessionOutgoingItem>) ensures o == Some(v0) { Some(v0) })` rule=R18
+//@@ subst `.map(SessionOutgoingItem::MultipleFrames)` => `.map(|v0: Vec<SessionFrame>| -> (o: SessionOutgoingItem) ensures o == SessionOutgoingItem::MultipleFrames(v0) { SessionOutgoingItem::MultipleFrames(v0) })` rule=R18 unless `\.map\(`
+//@@ subst `.map(Some)` => `.map(|v0: SessionOutgoingItem| -> (o: Option<SessionOutgoingItem>) ensures o == Some(v0) { Some(v0) })` rule=R18 unless `\.map\(`
 //@@ spec
     ensures
         r is Ok,                                                                                          // [C07.send.total]
@@ -745,7 +745,7 @@ impl Session {
 //@@ fn file=fe2o3-amqp/src/session/mod.rs impl=`impl Session` name=on_incoming_flow_inner
 //@@ subst `LinkFlow::try_from(flow)` => `Self::linkflow_try_from(flow)` rule=R16
 //@@ subst `InputHandle::from(` => `handle_to_input(` rule=R16
-//@@ subst `.map_err(Into::into)` => `.map_err(|e: LinkRelayError| -> (o: SessionInnerError) { SessionInnerError::from_relay(e) })` rule=R17
+//@@ subst `.map_err(Into::into)` => `.map_err(|e: LinkRelayError| -> (o: SessionInnerError) { SessionInnerError::from_relay(e) })` rule=R17 unless `\.map_err\(`
 //@@ spec
     ensures
         final(self).next_incoming_id == flow.next_outgoing_id,                  // [C07.flow.next-incoming-id] taken from the peer's statement
@@ -849,8 +849,8 @@ impl Session {
 //@@ end
 
 //@@ fn file=fe2o3-amqp/src/session/mod.rs impl=`impl endpoint::Session for Session` name=on_incoming_flow
-//@@ subst `outgoing_link_flow .map(|flow| self.on_outgoing_flow(flow)) .transpose()?` => `match outgoing_link_flow { Some(flow) => Some(self.on_outgoing_flow(flow)?), None => None }` rule=R19
-//@@ subst `.map(SessionOutgoingItem::SingleFrame)` => `.map(|v0: SessionFrame| -> (o: SessionOutgoingItem) ensures o == SessionOutgoingItem::SingleFrame(v0) { SessionOutgoingItem::SingleFrame(v0) })` rule=R18
+//@@ subst `outgoing_link_flow .map(|flow| self.on_outgoing_flow(flow)) .transpose()?` => `match outgoing_link_flow { Some(flow) => Some(self.on_outgoing_flow(flow)?), None => None }` rule=R19 unless `\.map\(`
+//@@ subst `.map(SessionOutgoingItem::SingleFrame)` => `.map(|v0: SessionFrame| -> (o: SessionOutgoingItem) ensures o == SessionOutgoingItem::SingleFrame(v0) { SessionOutgoingItem::SingleFrame(v0) })` rule=R18 unless `\.map\(`
 //@@ spec
     ensures
         final(self).next_incoming_id == flow.next_outgoing_id,                  // [C07.inflow.next-incoming-id]
@@ -943,7 +943,7 @@ impl Session {
 
 //@@ fn file=fe2o3-amqp/src/session/mod.rs impl=`impl endpoint::Session for Session` name=send_begin
 //@@ param writer : &mut ChanSender<SessionFrame>
-//@@ subst `self.incoming_channel.map(Into::into)` => `self.incoming_channel.map(|c: IncomingChannel| -> (o: u16) ensures o == c.0 { c.0 })` rule=R17
+//@@ subst `self.incoming_channel.map(Into::into)` => `self.incoming_channel.map(|c: IncomingChannel| -> (o: u16) ensures o == c.0 { c.0 })` rule=R17 unless `\.map\(`
 //@@ subst `.clone().map(Into::into)` => `.clone()` rule=R16
 //@@ subst `|_v0| {` => `|_v0: ChanSendError| -> (o: SessionStateError) ensures o is ConnectionStopped {` rule=R18 unless `map_err`
 //@@ subst `|_v1| {` => `|_v1: ChanSendError| -> (o: SessionStateError) ensures o is ConnectionStopped {` rule=R18 unless `map_err`
@@ -1147,7 +1147,7 @@ impl Session {
     }
 
 //@@ fn file=fe2o3-amqp/src/session/mod.rs impl=`impl endpoint::Session for Session` name=allocate_link
-//@@ subst `.map(|val| val.with_output_handle(handle.clone()))` => `.map(|val: LinkRelay<()>| -> (o: LinkRelay<OutputHandle>) ensures o == relay_with_handle(val, handle) { val.with_output_handle(handle.clone()) })` rule=R18
+//@@ subst `.map(|val| val.with_output_handle(handle.clone()))` => `.map(|val: LinkRelay<()>| -> (o: LinkRelay<OutputHandle>) ensures o == relay_with_handle(val, handle) { val.with_output_handle(handle.clone()) })` rule=R18 unless `\.map\(`
 //@@ spec
     requires
         old(self).link_name_by_output_handle.spec_vacant_key() < 0x1_0000_0000,   // ASSUMED: fewer than 2^32 link handles are live (the handle is `key as u32`)
@@ -1247,7 +1247,7 @@ impl Session {
 //@@ end
 
 //@@ fn file=fe2o3-amqp/src/session/mod.rs impl=`impl endpoint::Session for Session` name=on_outgoing_disposition
-//@@ subst `disposition .state .as_ref() .map(|s| s.is_terminal()) .unwrap_or(false)` => `(match disposition.state.as_ref() { Some(s) => s.is_terminal(), None => false })` rule=R19
+//@@ subst `disposition .state .as_ref() .map(|s| s.is_terminal()) .unwrap_or(false)` => `(match disposition.state.as_ref() { Some(s) => s.is_terminal(), None => false })` rule=R19 unless `\.map\(`
 //@@ spec
     requires
         disposition.last is Some && disposition.last->Some_0 >= disposition.first ==> disposition.last->Some_0 - disposition.first < u32::MAX,   // ASSUMED of the local link: a disposition never spans all 2^32 ids
@@ -1276,7 +1276,7 @@ impl SessionBuilder {
 }
 
 //@@ fn file=fe2o3-amqp/src/session/mod.rs name=num_messages_settled_by_disposition
-//@@ subst `last.and_then(|last| last.checked_sub(first)).unwrap_or(0) + 1` => `(match last { Some(last) => match last.checked_sub(first) { Some(d) => d, None => 0 }, None => 0 }) + 1` rule=R19
+//@@ subst `last.and_then(|last| last.checked_sub(first)).unwrap_or(0) + 1` => `(match last { Some(last) => match last.checked_sub(first) { Some(d) => d, None => 0 }, None => 0 }) + 1` rule=R19 unless `and_then`
 //@@ spec
     requires
         last is Some && last->Some_0 >= first ==> last->Some_0 - first < u32::MAX,   // (assumed of local callers: a disposition never spans all 2^32 ids)
